@@ -134,35 +134,39 @@ def tagIDAT : List Nat := [73, 68, 65, 84]
 def tagTRNS : List Nat := [116, 82, 78, 83]
 def tagIEND : List Nat := [73, 69, 78, 68]
 
-/-- the `while self.pos < self.data.len()` loop of `decode` with `read_chunk` inlined;
-`rest` = `data[pos..]`.  Every iteration consumes at least 12 bytes, `fuel` ≥ `rest.length`. -/
+/-- one iteration of the `while self.pos < self.data.len()` loop of `decode` with `read_chunk`
+inlined; `rest` = `data[pos..]`, `k` = the remaining iterations. -/
+def walkBody (k : List Nat → Decoder → Outcome Decoder) (rest : List Nat) (st : Decoder) :
+    Outcome Decoder :=
+  if rest.isEmpty then .ok st
+  else if rest.length < 8 then .err .eof
+  else
+    let length := be32At rest 0
+    let tag := (rest.drop 4).take 4
+    let body := rest.drop 8
+    if body.length < length + 4 then .err .chunklen
+    else
+      let cdata := body.take length
+      let rest' := body.drop (length + 4)
+      if tag = tagIHDR then
+        match processIhdr st cdata with
+        | .ok st' => k rest' st'
+        | .err e => .err e
+        | .panic => .panic
+      else if tag = tagPLTE then
+        match processPlte st cdata with
+        | .ok st' => k rest' st'
+        | .err e => .err e
+        | .panic => .panic
+      else if tag = tagIDAT then k rest' { st with idat := st.idat ++ [cdata] }
+      else if tag = tagTRNS then k rest' (processTrns st cdata)
+      else if tag = tagIEND then .ok st
+      else k rest' st
+
+/-- the loop; every iteration consumes at least 12 bytes, `fuel` ≥ `rest.length` -/
 def walk : Nat → List Nat → Decoder → Outcome Decoder
   | 0, _, st => .ok st
-  | fuel + 1, rest, st =>
-    if rest.isEmpty then .ok st
-    else if rest.length < 8 then .err .eof
-    else
-      let length := be32At rest 0
-      let tag := (rest.drop 4).take 4
-      let body := rest.drop 8
-      if body.length < length + 4 then .err .chunklen
-      else
-        let cdata := body.take length
-        let rest' := body.drop (length + 4)
-        if tag = tagIHDR then
-          match processIhdr st cdata with
-          | .ok st' => walk fuel rest' st'
-          | .err e => .err e
-          | .panic => .panic
-        else if tag = tagPLTE then
-          match processPlte st cdata with
-          | .ok st' => walk fuel rest' st'
-          | .err e => .err e
-          | .panic => .panic
-        else if tag = tagIDAT then walk fuel rest' { st with idat := st.idat ++ [cdata] }
-        else if tag = tagTRNS then walk fuel rest' (processTrns st cdata)
-        else if tag = tagIEND then .ok st
-        else walk fuel rest' st
+  | fuel + 1, rest, st => walkBody (walk fuel) rest st
 
 /-- `paeth_predictor` (i16 arithmetic, result is one of the inputs) -/
 def paethPredictor (a b c : Nat) : Nat :=
